@@ -712,16 +712,30 @@ var externalWriters = map[string][]int{
 	"io.ReadAtLeast":                           {1},
 	"crypto/rand.Read":                         {0},
 	"(*math/big.Int).FillBytes":                {1},
-	"sort.Slice":                               {0},
-	"sort.SliceStable":                         {0},
-	"sort.Sort":                                {0},
-	"sort.Stable":                              {0},
-	"sort.Ints":                                {0},
-	"sort.Strings":                             {0},
-	"(*bytes.Buffer).Read":                     {1},
-	"(*bytes.Reader).Read":                     {1},
-	"encoding/json.Unmarshal":                  {1},
-	"(*encoding/json.Decoder).Decode":          {1},
+	// math/big: methods that set their receiver (z = …); QuoRem/DivMod also set their last argument
+	"(*math/big.Int).Set": {0}, "(*math/big.Int).SetInt64": {0}, "(*math/big.Int).SetUint64": {0}, "(*math/big.Int).SetBytes": {0},
+	"(*math/big.Int).SetString": {0}, "(*math/big.Int).SetBit": {0}, "(*math/big.Int).SetBits": {0}, "(*math/big.Int).Add": {0},
+	"(*math/big.Int).Sub": {0}, "(*math/big.Int).Mul": {0}, "(*math/big.Int).Div": {0}, "(*math/big.Int).Mod": {0},
+	"(*math/big.Int).DivMod": {0, 3}, "(*math/big.Int).Quo": {0}, "(*math/big.Int).Rem": {0}, "(*math/big.Int).QuoRem": {0, 3},
+	"(*math/big.Int).Exp": {0}, "(*math/big.Int).Neg": {0}, "(*math/big.Int).Abs": {0}, "(*math/big.Int).Lsh": {0},
+	"(*math/big.Int).Rsh": {0}, "(*math/big.Int).And": {0}, "(*math/big.Int).Or": {0}, "(*math/big.Int).Xor": {0},
+	"(*math/big.Int).Not": {0}, "(*math/big.Int).AndNot": {0}, "(*math/big.Int).ModInverse": {0}, "(*math/big.Int).ModSqrt": {0},
+	"(*math/big.Int).GCD": {0, 1, 2}, "(*math/big.Int).Sqrt": {0}, "(*math/big.Int).Rand": {0}, "(*math/big.Int).Binomial": {0},
+	"(*math/big.Int).MulRange": {0},
+	// buffers and concrete hash states: methods that change the receiver
+	"(*bytes.Buffer).Write": {0}, "(*bytes.Buffer).WriteByte": {0}, "(*bytes.Buffer).WriteString": {0}, "(*bytes.Buffer).Reset": {0},
+	"(*bytes.Buffer).Truncate": {0}, "(*bytes.Buffer).Grow": {0}, "(*bytes.Buffer).ReadFrom": {0}, "(*bytes.Buffer).Next": {0},
+	"(*strings.Builder).WriteByte": {0}, "(*strings.Builder).WriteString": {0}, "(*strings.Builder).Write": {0}, "(*strings.Builder).Reset": {0},
+	"sort.Slice":                      {0},
+	"sort.SliceStable":                {0},
+	"sort.Sort":                       {0},
+	"sort.Stable":                     {0},
+	"sort.Ints":                       {0},
+	"sort.Strings":                    {0},
+	"(*bytes.Buffer).Read":            {1},
+	"(*bytes.Reader).Read":            {1},
+	"encoding/json.Unmarshal":         {1},
+	"(*encoding/json.Decoder).Decode": {1},
 }
 
 // interface methods that write through an argument
@@ -733,6 +747,9 @@ var invokeWriters = map[string][]int{
 	"Sum":       {0}, // hash.Hash.Sum(b) appends to b
 	"Swap":      {},  // sort.Interface.Swap: handled through CHA
 }
+
+// interface methods that change the state of the object they are called on (hash.Hash, io.Writer, …)
+var invokeMutatesReceiver = map[string]bool{"Write": true, "Reset": true, "WriteByte": true, "WriteString": true, "Read": true, "ReadByte": true, "Seek": true}
 
 // WriteEffects returns the write effects of fn in fn's own terms, closed over
 // in-repo callees.
@@ -789,6 +806,9 @@ func (e *Effects) WriteEffects(fn *ssa.Function) []Effect {
 								add(e.Src(com.Args[i]), pos, "passed to writer "+com.Method.Name(), fn)
 							}
 						}
+					}
+					if invokeMutatesReceiver[com.Method.Name()] {
+						add(e.Src(com.Value), pos, "state changed by "+com.Method.Name(), fn)
 					}
 				} else {
 					e.Dynamic[x] = true
